@@ -100,6 +100,8 @@ def render(case, form):
         return None
     if name in NO_LLVM_TEXT:
         return None
+    if "cbase" in case and any(o[0] == "M" and not o[1]["base"] and not o[1]["index"] and o[1].get("addr") != "abs" for o in case["ops"]):
+        return None  # the assembler may pick [rip+disp32] for it (known code address): llvm-mc's absolute encoding is no reference
     if name in ("push", "pop", "mov") and any(o[0] == "R" and o[1] == "sreg" for o in case["ops"]):
         return None  # LLVM picks operand sizes of its own for segment-register moves
     name = LLVM_NAME.get(name, name)
